@@ -3363,6 +3363,105 @@ def _ragged_operand(ck, mod, q, cx, V, once):
     return len(sites)
 
 
+def _value_helper(mod, cx, call, V):
+    """`call` applies a value helper of the class / module to the local `V` and nothing else: `self._h(V)`, `CLS._h(V)`,
+    `type(self)._h(V)`, `_h(V)`.  -> (helper Ctx, name of the helper's value parameter) when the helper is a plain function of
+    that one argument: no representation events, no other parameter used, its parameter neither rebound nor stored into,
+    no nested scopes / generators; None otherwise (the caller then treats the call as an unrecognised expression)."""
+    if not (isinstance(call, ast.Call) and len(call.args) == 1 and not call.keywords and isinstance(call.args[0], ast.Name)
+            and call.args[0].id == V):
+        return None
+    f = call.func
+    hq = None
+    if isinstance(f, ast.Name):
+        hq, bound = f.id, False
+    elif isinstance(f, ast.Attribute):
+        r = f.value
+        on_me = isinstance(r, ast.Name) and r.id == cx.me
+        on_cls = (isinstance(r, ast.Name) and r.id == CLS) or match('type(%s)' % cx.me, r) is not None or \
+                 (isinstance(r, ast.Attribute) and r.attr == '__class__' and isinstance(r.value, ast.Name) and r.value.id == cx.me)
+        if on_me or on_cls:
+            hq, bound = CLS + '.' + f.attr, on_me
+    hf = mod.functions.get(hq) if hq else None
+    if hf is None or hf is cx.fn or not isinstance(hf, ast.FunctionDef):
+        return None
+    decos = [u(d) for d in hf.decorator_list]
+    if any(d not in ('staticmethod', 'classmethod') for d in decos) or len(decos) > 1:
+        return None
+    ps = params(hf)
+    a = hf.args
+    if a.vararg or a.kwarg or a.kwonlyargs:
+        return None
+    is_method = '.' in hq
+    if is_method and not decos:
+        if not bound or len(ps) != 2:          # CLS._h(V) on a plain method binds V to the receiver
+            return None
+        recv, P = ps[0], ps[1]
+    elif is_method and decos == ['classmethod']:
+        if len(ps) != 2:
+            return None
+        recv, P = ps[0], ps[1]
+    else:
+        if len(ps) != 1:
+            return None
+        recv, P = None, ps[0]
+    for n in ast.walk(hf):
+        if n is not hf and isinstance(n, (ast.FunctionDef, ast.AsyncFunctionDef, ast.ClassDef, ast.Lambda, ast.Yield, ast.YieldFrom,
+                                          ast.Global, ast.Nonlocal, ast.Await, ast.NamedExpr)):
+            return None
+        if isinstance(n, ast.Name) and n.id == P and isinstance(n.ctx, (ast.Store, ast.Del)):
+            return None
+        if recv is not None and isinstance(n, ast.Name) and n.id == recv:
+            return None                        # reads the receiver: not a function of the value alone
+        if isinstance(n, (ast.Subscript, ast.Attribute)) and isinstance(n.ctx, (ast.Store, ast.Del)):
+            r = n
+            while isinstance(r, (ast.Subscript, ast.Attribute, ast.Starred)):
+                r = r.value
+            if isinstance(r, ast.Name) and r.id == P:
+                return None
+        if isinstance(n, ast.Call) and isinstance(n.func, ast.Attribute) and n.func.attr in MUT_METHODS:
+            return None
+        if isinstance(n, ast.Call) and (call_name(n) in NP_INPLACE or any(k.arg == 'out' for k in n.keywords)):
+            return None
+    hcx = Ctx(mod, hf)
+    hcx.me = recv if recv is not None else '<no receiver>'
+    return hcx, P
+
+
+def _value_helper_cases(vh, outer):
+    """The returns of a value helper as cases [(returned leaf, parameter name, (ITERABLE(P), NONEMPTY(P), ITERABLE(P[0])) on the
+    path, far?)], restricted to the helper paths compatible with what the caller already knows about the argument
+    (`outer`, same three predicates).  Raising paths are refusals, not values.  None when a path cannot be followed."""
+    hcx, P = vh
+    cs = Cases.of(hcx)
+    if cs.overflow:
+        return None
+    keys = (('iter', P), ('nonempty', P), ('iter', '%s[0]' % P))
+    out = []
+    for hp in cs.paths:
+        if hp.outcome == 'raise':
+            continue
+        if hp.opaque or hp.outcome != 'return':
+            return None                        # an exit inside a loop / falls off the end (stores None)
+        last = None
+        for j in range(len(hp.trace) - 1, -1, -1):
+            if hp.trace[j].kind == 'stmt':
+                last = j
+                break
+        if last is None or not isinstance(hp.trace[last].node, ast.Return) or hp.trace[last].node.value is None:
+            return None
+        ent = hp.trace[last]
+        inner = tuple(ent.env.get(k) for k in keys)
+        if any(o is not None and h is not None and o != h for o, h in zip(outer, inner)):
+            continue                           # the caller's path excludes this helper path
+        env = tuple(o if o is not None else h for o, h in zip(outer, inner))
+        lf, _j = _resolve(hp, last, ent.node.value, keep=(P,))
+        if lf is None:
+            return None
+        out.append((lf, P, env, bool(hp.generic_over((P,)))))
+    return out or None
+
+
 def _events_on(cx, p, kinds, whats=None):
     out = []
     for i, e in enumerate(p.trace):
@@ -3421,25 +3520,38 @@ def d1_setitem_forms(ck, mod):
             if leaf is None:
                 once.missing(rule + '.value-flattening', '%s: the value stored into the flat data is not followed to its definition (%s)' % (q, u(e.node)[:80]))
                 continue
-            vi, vn, v0 = e.env.get(kVI), e.env.get(kVN), e.env.get(kV0)
-            if isinstance(leaf, ast.Name) and leaf.id == V:
-                n_flat += 1
-                if not (vi is False or vn is False or v0 is False):
-                    once.decide(_tri(p, None, (V,)), rule + '.value-flattening', e.node, 'value stored as it is for a sequence of rows',
-                                'the flat data receives `%s` unchanged on a path on which nothing excludes a non-empty sequence of sequences '
-                                '(ITERABLE(%s) %s, ITERABLE(%s[0]) %s): row objects are stored into single cells / the shapes do not match'
-                                % (V, V, vi, V, v0))
-            elif isinstance(leaf, ast.Call) and call_name(leaf) in _JOIN_FUNCS and len(leaf.args) == 1 and isinstance(leaf.args[0], ast.Name) \
-                    and leaf.args[0].id == V:
-                n_flat += 1
-                if vi is not True or v0 is not True:
-                    once.decide(_tri(p, None, (V,)), rule + '.value-flattening', e.node, 'rows of the value joined for a value that is no sequence of rows',
-                                '%s(%s) is stored into the flat data on a path on which ITERABLE(%s) is %s and ITERABLE(%s[0]) is %s: for a '
-                                'scalar or a flat sequence the join (or the len()/[0] probe on the way to it) raises, so `a[i, j] = 5` / '
-                                '`a[i, :] = [1, 2]` fail where the list-of-rows model assigns' % (call_name(leaf), V, V, vi, V, v0))
-            else:
-                once.missing(rule + '.value-flattening', '%s: value stored into the flat data not recognised as <value> / join of its rows: %s' % (
-                    q, u(leaf)[:80]))
+            outer = (e.env.get(kVI), e.env.get(kVN), e.env.get(kV0))
+            # the cases of the value as (leaf over the name W, (ITERABLE(W), NONEMPTY(W), ITERABLE(W[0])), far?): the expression
+            # itself, or - for a call of a pure one-argument value helper applied to the value - the helper's returns
+            cases = [(leaf, V, outer, False)]
+            vh = _value_helper(mod, cx, leaf, V)
+            if vh is not None:
+                cases = _value_helper_cases(vh, outer)
+                if cases is None:
+                    once.missing(rule + '.value-flattening', '%s: value stored into the flat data through a helper whose paths are not followed: %s' % (
+                        q, u(leaf)[:80]))
+                    continue
+            for lf, W, (vi, vn, v0), hfar in cases:
+                def verdict():
+                    return 'far' if hfar else _tri(p, None, (V,))
+                if isinstance(lf, ast.Name) and lf.id == W:
+                    n_flat += 1
+                    if not (vi is False or vn is False or v0 is False):
+                        once.decide(verdict(), rule + '.value-flattening', e.node, 'value stored as it is for a sequence of rows',
+                                    'the flat data receives `%s` unchanged on a path on which nothing excludes a non-empty sequence of sequences '
+                                    '(ITERABLE(%s) %s, ITERABLE(%s[0]) %s): row objects are stored into single cells / the shapes do not match'
+                                    % (V, V, vi, V, v0))
+                elif isinstance(lf, ast.Call) and call_name(lf) in _JOIN_FUNCS and len(lf.args) == 1 \
+                        and isinstance(lf.args[0], ast.Name) and lf.args[0].id == W:
+                    n_flat += 1
+                    if vi is not True or v0 is not True:
+                        once.decide(verdict(), rule + '.value-flattening', e.node, 'rows of the value joined for a value that is no sequence of rows',
+                                    '%s(%s) is stored into the flat data on a path on which ITERABLE(%s) is %s and ITERABLE(%s[0]) is %s: for a '
+                                    'scalar or a flat sequence the join (or the len()/[0] probe on the way to it) raises, so `a[i, j] = 5` / '
+                                    '`a[i, :] = [1, 2]` fail where the list-of-rows model assigns' % (call_name(lf), V, V, vi, V, v0))
+                else:
+                    once.missing(rule + '.value-flattening', '%s: value stored into the flat data not recognised as <value> / join of its rows: %s' % (
+                        q, u(lf)[:80] if lf is not None else u(leaf)[:80]))
     once.flush()
     if not once.n_bad:
         ck.ok(rule + '.accepted-index-writes', mod, fn, '%s: %d paths accept an index form' % (q, n_forms), 'each ends in a store into a representation or the recursive call')
